@@ -62,6 +62,9 @@ def progress_set(tier):
                 hk = "and_then" if mac.startswith("try") else "then"
                 p = fp.build(mac, ds, gated="one", handler=hk)
                 out.append(aprog("%s/%s/handler" % (mac, fp.pname(ds)), p, ds, "one", handler=hk))
+                if sum(ds) <= 2:
+                    p = fp.build(mac, ds, gated="one", handler=hk, hexpr_ev=True)
+                    out.append(aprog("%s/%s/handlerexpr" % (mac, fp.pname(ds)), p, ds, "one", handler=hk))
     # wide steps (17 and 33 branches, the first and the last one pending, all others ready): every branch is polled up to its pending
     # point in the first round, whatever its index, and the future completes under both release orders
     for mac in ("join_async", "try_join_async"):
@@ -96,6 +99,12 @@ def panic_set(tier):
                 continue
             p = fp.build(mac, ds, gated="one")
             out.append(aprog("%s/%s" % (mac, fp.pname(ds)), p, ds, "one", panics=fp.fail_slots(ds), sub=fp.fail_slots(ds) if (mac.startswith("try") and sum(ds) <= 3) else ()))
+            if max(ds) >= 2 and sum(ds) <= 4 and len(ds) <= 2:
+                # panics in the OPERAND expressions of later steps (evaluated when the step starts, before any branch of the step can
+                # fail), crossed with every failure subset in the try macros
+                p = fp.build(mac, ds, gated="opnd")
+                ops = [40 + fp.slot(b, k) for b, d in enumerate(ds) for k in range(1, d)]
+                out.append(aprog("%s/%s/opnd" % (mac, fp.pname(ds)), p, ds, "one", panics=ops, sub=fp.fail_slots(ds) if mac.startswith("try") else ()))
     return out
 
 
